@@ -48,7 +48,15 @@ type RSFault struct {
 	DownMs int    `json:"down_ms"`
 }
 
+// RSRogue: a client request sent to an arbitrary member, whatever its state at that moment (C10).
+type RSRogue struct {
+	AtMs   int    `json:"at_ms"`
+	Member int    `json:"member"`
+	Op     OpSpec `json:"op"`
+}
+
 type RSBody struct {
+	Rogue    []RSRogue  `json:"rogue,omitempty"`
 	Members  []RSMember `json:"members"`
 	Faults   []RSFault  `json:"faults"`
 	CutBytes []int      `json:"cut_bytes"` // successive arbiter connections: reset after k bytes from the acceptor (0 = never)
@@ -111,6 +119,28 @@ func genReplset(prop string, seed uint64, tier string) *Scenario {
 		}
 		body.Ops = append(body.Ops, o)
 	}
+	{
+		// requests to arbitrary members in whatever state they are in (own keys, own LockIds), drawn
+		// from a generator of their own
+		rg := ssched.Sub(seed, "rogue")
+		for i, k := 0, rg.Intn(25); i < k; i++ {
+			o := OpSpec{Cmd: 1, Key: 100 + rg.Intn(3), Lid: 400 + rg.Intn(4), Timeout: uint16(rg.Intn(2)), Expried: uint16(2 + rg.Intn(10)), Count: []uint16{0, 2}[rg.Intn(2)]}
+			if rg.Intn(3) == 0 {
+				o.Cmd = 2
+			}
+			at := rg.Intn(body.RunMs + 8000)
+			if rg.Intn(2) == 0 {
+				// right after a fault (an election is likely to be running), and again when it ends
+				f := body.Faults[rg.Intn(len(body.Faults))]
+				at = f.AtMs + rg.Intn(2500)
+				if rg.Intn(3) == 0 {
+					at = f.AtMs + f.DownMs + rg.Intn(2500)
+				}
+			}
+			body.Rogue = append(body.Rogue, RSRogue{AtMs: at, Member: rg.Intn(n), Op: o})
+		}
+		sort.Slice(body.Rogue, func(a, b int) bool { return body.Rogue[a].AtMs < body.Rogue[b].AtMs })
+	}
 	raw, _ := json.Marshal(body)
 	k := genKnobs(r)
 	k.AofAckMode = uint(r.Intn(2))
@@ -124,6 +154,8 @@ func genReplset(prop string, seed uint64, tier string) *Scenario {
 }
 
 type rsMemberRun struct {
+	leaderSpell int // counts the member's spells as leader
+
 	idx   int
 	spec  RSMember
 	host  string
@@ -224,6 +256,9 @@ func runReplset(w *World) {
 				w.probe("commits_observed")
 			}
 			isLd := m.node.sl.state == STATE_LEADER
+			if isLd != m.wasLd {
+				m.leaderSpell++
+			}
 			if isLd && !m.wasLd {
 				w.probe("leaders_elected")
 				w.logf("LEADER %s (node n%d) commit %d weight %d arbiter %d", m.host, m.node.id, v.commitId, m.spec.Weight, m.spec.Arbiter)
@@ -251,10 +286,28 @@ func runReplset(w *World) {
 	// number, the new committed number is the number the member has accepted — a member that has
 	// meanwhile accepted a higher number from another candidate must refuse the older commit, or two
 	// overlapping candidacies can both collect a majority of commits
+	lastSig := map[*PriorityMutex]string{}
 	ssync.OnAnyRelease = func(mu *ssync.Mutex) {
 		m := memberOfNode(ssched.CurrentNode())
 		if m == nil || !live(m) || m.node.id != ssched.CurrentNode() {
 			return
+		}
+		// C10: the lock state guarded by a shard mutex is changed by the task that holds it; on a
+		// member that is not the leader no such change may come from serving a client
+		if pm := shardOf(m.node.sl, mu); pm != nil {
+			sig := shardLockSig(m.node.sl, pm)
+			old, seen := lastSig[pm]
+			lastSig[pm] = sig
+			if !((!seen && sig == "") || old == sig) && m.node.sl.state != STATE_LEADER {
+				cls, stack := stackClass()
+				w.probe("member_state_changes_" + cls)
+				if cls == "other" {
+					w.logf("MEMBER STATE CHANGE (other) n%d state %d: %s => %s [%s]", m.node.id, m.node.sl.state, old, sig, stack)
+				}
+				if cls == "client" {
+					w.violate("C10", "non_leader_decided", "member %s (node n%d, state %d) changed its lock state while serving a client: %s => %s [%s]", m.host, m.node.id, m.node.sl.state, old, sig, stack)
+				}
+			}
 		}
 		v := m.node.sl.arbiterManager.voter
 		p, c := v.proposalId, v.commitId
@@ -367,6 +420,86 @@ func runReplset(w *World) {
 				sleep(d)
 			}
 		}
+		// C10: binary connections to arbitrary members, kept open across role changes; a request is
+		// sent over the member's connection in whatever state the member is in at that moment
+		ssched.SpawnOn(0, "rs-rogue", func() {
+			conns := map[int]*binClient{}
+			for i, rg := range body.Rogue {
+				at(rg.AtMs)
+				if done {
+					break
+				}
+				mi := rg.Member % len(ms)
+				m := ms[mi]
+				if !live(m) || !m.node.ready {
+					continue
+				}
+				c := conns[mi]
+				if c != nil {
+					select {
+					case <-c.rdone:
+						c.Close()
+						c = nil
+					default:
+					}
+				}
+				if c == nil {
+					nc, err := newBinClient(w, h, m.host, 1)
+					if err != nil {
+						continue
+					}
+					c, conns[mi] = nc, nc
+					w.probe("rogue_connections")
+				}
+				rec := h.invoke(1, 1000+i, rg.Op)
+				s0 := m.node.sl.state
+				l0 := leaderOf()
+				spell0 := 0
+				if l0 != nil {
+					spell0 = l0.leaderSpell
+				}
+				tSend := w.now()
+				if c.Send(rec) != nil {
+					continue
+				}
+				if !waitReply(rec, 20*time.Second) {
+					w.probe("rogue_requests_unanswered")
+					continue
+				}
+				w.probe("rogue_requests_answered")
+				w.probe(fmt.Sprintf("rogue_to_state_%d", s0))
+				res := rec.Replies[0].Result
+				if res == protocol.RESULT_STATE_ERROR {
+					w.probe("rogue_state_errors")
+				}
+				// a grant relayed by any member is a grant by the leader: when one member has been the
+				// leader since before the request was sent and still is, it holds that lock now
+				// (a reply that was held up in the network for most of the hold's term proves nothing)
+				if l1 := leaderOf(); rg.Op.Cmd == protocol.COMMAND_LOCK && res == protocol.RESULT_SUCCED && w.now().Sub(tSend) < time.Duration(rg.Op.Expried-1)*time.Second && l0 != nil && l1 == l0 && l0.leaderSpell == spell0 && live(l0) {
+					w.probe("rogue_grants_checked")
+					held := false
+					kb, lb := keyBytes(rg.Op.Key), lidBytes(rg.Op.Lid)
+					if db := l0.node.sl.dbs[rg.Op.Db]; db != nil {
+						for _, mg := range allManagers(db) {
+							if mg.refCount == 0xffffffff || mg.lockKey != kb {
+								continue
+							}
+							for _, lk := range holdersOf(mg) {
+								if lk.command != nil && lk.command.LockId == lb {
+									held = true
+								}
+							}
+						}
+					}
+					if !held {
+						w.violate("C10", "granted_but_not_held_on_leader", "request %s sent to member %s (state %d) was answered SUCCED, but the leader %s does not hold that LockId on that key", rec, m.host, s0, l0.host)
+					}
+				}
+			}
+			for _, c := range conns {
+				c.Close()
+			}
+		})
 		fdone := 0
 		for _, f := range body.Faults {
 			f := f
@@ -559,4 +692,9 @@ func init() {
 		Kind   string
 		Weight int
 	}{"replset", 10})
+	// C10: requests to members in every state (vote, config, follower, a leader being deposed)
+	propKinds["C10"] = append(propKinds["C10"], struct {
+		Kind   string
+		Weight int
+	}{"replset", 1})
 }
